@@ -1,240 +1,64 @@
 """C10 - finite strain tensors are objective, symmetric and exact for known deformations.
 
-Specification : specs/Strain.tla  (configs Strain_q.cfg / Strain_t.cfg), binding mode A (case oracle).
+Specification : specs/Strain.tla, two machines over one algebra, binding mode A (case / behaviour oracle).
+Helpers       : harness/c10_exact.py (exact fractions, oracle of one deformation), harness/c10_hist.py (histories).
 
-TLC enumerates reference lattice x reference orientation x stretch x rotation, computes the Seth-Hill
-tensors E_ref(m), E_lab(m) (2m in -2,-1,1,2,3,4) in exact rational arithmetic along the code's own
-path (F = ubi^T.ub0^T, even/odd branches), checks the property's laws as invariants and prints one JSON
-record per case.  This module replays every record into the real code:
+Machine Spec (configs Strain_q.cfg / Strain_t.cfg) - CASES.  TLC enumerates reference lattice x reference
+orientation x stretch x rotation, computes the Seth-Hill tensors E_ref(m), E_lab(m) (2m in -2,-1,1,2,3,4) in exact
+rational arithmetic along the code's own path (F = ubi^T.ub0^T, even/odd branches), checks the property's laws as
+invariants and prints one JSON record per case.  This module replays every record into the real code:
 
   grain.eps_grain / eps_grain_matrix / eps_sample / eps_sample_matrix
         reference = 6-parameter cell, = reference grain, = re-oriented reference grain, all seven m
-  finite_strain.DeformationGradientTensor(arrays | grains) .F .U .VRS .finite_strain_ref/lab
+  finite_strain.DeformationGradientTensor(arrays | grains | grain + array | array + grain): ONE object for all m,
+        ref and lab interleaved and asked twice, .F .U .VRS before and after
   e6 ordering (symm_to_e6 / e6_to_symm of both modules)
   tensor_map.ubi_and_unitcell_to_eps_sample/_crystal, tensor_crystal_to_sample/_sample_to_crystal
-        (vectorised over all cases, NaN-masked voxels)
-  tensor_map.TensorMap.eps_sample / eps_crystal, computed from UBI and derived from one another
+        (vectorised over all cases, NaN-masked voxels; one (6,) cell broadcast over a (2,k,3,3) stack; bare (3,3);
+        explicit dirty output buffer)
+  tensor_map.TensorMap.eps_sample / eps_crystal (computed from UBI and derived from one another), eps_hydro,
+        eps_devia on a two-layer map whose phases dictionary has ids 2, 5, 8.. inserted in descending order, with
+        masked voxels and voxels whose phase id has no reference
+  the first-order clause judged on what the code returned (all pairs of m of one route within K2.r^2)
+  small-strain family (harness side, covariant: the model is exact for any rational stretch): per record one member
+        S' = I + (S - I)/100 or /10^4 (strains 1e-3 / 1e-5) from python fractions (m = 0: exact Mercator series),
+        judged at 1e-9 of the strain + 3e-14 through the grain routes, DeformationGradientTensor and the kernels
+
+Machine HSpec (configs Strain_hist_q/_hist_t [tlc -simulate, VERIF_SEED], Strain_map_t [exhaustive],
+Strain_map_asis [expected violation]) - HISTORIES on one object; law: every answer is the exact tensor of the CURRENT
+state.  Each printed history is replayed on one real grain (+ one reference grain object, + one
+DeformationGradientTensor object) or one real TensorMap (see c10_hist.py): strain requests interleaved with
+set_ubi, new / re-oriented reference grains, other m and frames; TensorMap reads of eps_sample / eps_crystal /
+eps_hydro / eps_devia interleaved with a new UBI map assigned by setter / item / add_map, on multi-phase maps with
+arbitrary phase-id dictionaries.  Grain histories are replayed a second time lifted onto the records of machine Spec
+(triclinic references, Pythagorean orientations).
+
+Findings: TensorMap.clear_cache keeps the eps maps, so after a new UBI map is assigned they still show the old one
+(STALE_FINDING_ID): the model of the code as it is (Strain_map_asis.cfg) violates MapAsIsCurrent, the counterexample
+and every drawn history are replayed; a failing read is in the class iff it equals, voxel for voxel, the value the
+as-is model predicts and that differs from the property's.  With the entry in known_findings.json the class is
+reported as KNOWN-FINDING, without it as VIOLATION.
 
 m = 0 (logarithmic strain) and the B matrix of the strained cell (needed for the map's U) are irrational:
 they are finished here from the exact S, R, UB that the specification emits.
+VERIF_TLC_WORKERS lowers the number of TLC workers of the exhaustive runs (default 16).
 """
 from __future__ import print_function
-import os, sys, json, math, io, contextlib, copy
+import os, sys, json, math, io, contextlib, copy, random
 from fractions import Fraction as Fr
 import numpy as np
 import common
 
 PROP = "C10"
-MS2 = [-2, -1, 1, 2, 3, 4]
 FINDING_ID = "C10-tensormap-eps-sample-from-crystal"
+STALE_FINDING_ID = "C10-tensormap-eps-maps-survive-ubi-assignment"
 MAXV_PER_ROUTE = 2
 
 
-# ----------------------------------------------------------------------------------------------
-# exact 3x3 algebra on Fractions (independent re-derivation of what TLC emits)
-
-def fm(scaled):
-    num, den = scaled
-    return [[Fr(int(x), int(den)) for x in row] for row in num]
-
-
-def fI():
-    return [[Fr(int(i == j)) for j in range(3)] for i in range(3)]
-
-
-def fmm(a, b):
-    return [[sum(a[i][k] * b[k][j] for k in range(3)) for j in range(3)] for i in range(3)]
-
-
-def ft(a):
-    return [[a[j][i] for j in range(3)] for i in range(3)]
-
-
-def fdet(m):
-    return (m[0][0] * (m[1][1] * m[2][2] - m[1][2] * m[2][1])
-            - m[0][1] * (m[1][0] * m[2][2] - m[1][2] * m[2][0])
-            + m[0][2] * (m[1][0] * m[2][1] - m[1][1] * m[2][0]))
-
-
-def finv(m):
-    d = fdet(m)
-    c = [[None] * 3 for _ in range(3)]
-    for i in range(3):
-        for j in range(3):
-            r = [x for x in range(3) if x != i]
-            s = [x for x in range(3) if x != j]
-            minor = m[r[0]][s[0]] * m[r[1]][s[1]] - m[r[0]][s[1]] * m[r[1]][s[0]]
-            c[j][i] = (-1) ** (i + j) * minor / d
-    return c
-
-
-def fpow(m, p):
-    if p < 0:
-        m = finv(m)
-        p = -p
-    out = fI()
-    for _ in range(p):
-        out = fmm(out, m)
-    return out
-
-
-def fsub(a, b):
-    return [[a[i][j] - b[i][j] for j in range(3)] for i in range(3)]
-
-
-def fscale(a, k):
-    return [[a[i][j] * k for j in range(3)] for i in range(3)]
-
-
-def fconj(q, a):           # q a q^T
-    return fmm(fmm(q, a), ft(q))
-
-
-def fconjT(q, a):          # q^T a q
-    return fmm(fmm(ft(q), a), q)
-
-
-def seth_hill(x, m2):      # (x^m2 - I)/m2
-    return fscale(fsub(fpow(x, m2), fI()), Fr(1, m2))
-
-
-def f2np(a):
-    return np.array([[float(x) for x in row] for row in a], float)
-
-
-def is_diag(a):
-    return all(a[i][j] == 0 for i in range(3) for j in range(3) if i != j)
-
-
-class OracleMismatch(common.MachineryError):
-    pass
-
-
-# ----------------------------------------------------------------------------------------------
-# the oracle: everything expected for one TLC record
-
-U0P = [[Fr(4, 5), Fr(-3, 5), Fr(0)], [Fr(3, 5), Fr(4, 5), Fr(0)], [Fr(0), Fr(0), Fr(1)]]   # Rz(atan2(3,4))
-PERM = [[Fr(0), Fr(0), Fr(1)], [Fr(1), Fr(0), Fr(0)], [Fr(0), Fr(1), Fr(0)]]
-
-
-class Oracle(object):
-    """exact expected values for one record (Fractions), cross-checked against TLC's numbers"""
-
-    def __init__(self, rec):
-        self.rec = rec
-        L0 = [[Fr(int(x)) for x in row] for row in rec["L0"]]
-        U0 = fm(rec["U0"])
-        S = fm(rec["S"])
-        R = fm(rec["R"])
-        self.L0, self.U0, self.S, self.R = L0, U0, S, R
-        self.ubi0 = fmm(L0, ft(U0))
-        self.ub0 = fmm(U0, finv(L0))
-        self.ubi = fmm(fmm(self.ubi0, S), ft(R))
-        self.F = fmm(R, S)
-        self.V = fconj(R, S)
-        self.mt0 = fmm(L0, ft(L0))
-        # --- the specification's values must be these (two independent exact derivations)
-        for name, mine in (("ubi0", self.ubi0), ("ub0", self.ub0), ("ubi", self.ubi), ("F", self.F)):
-            if fm(rec[name]) != mine:
-                raise OracleMismatch("spec and harness disagree on %s for %s" % (name, json.dumps(rec)[:300]))
-        if [[Fr(int(x)) for x in r] for r in rec["mt0"]] != self.mt0:
-            raise OracleMismatch("spec and harness disagree on mt0")
-        if fmm(ft(self.ubi), ft(self.ub0)) != self.F:
-            raise OracleMismatch("F = ubi^T.ub0^T is not R.S")
-        if list(rec["ms"]) != MS2:
-            raise OracleMismatch("unexpected exponent list %r" % (rec["ms"],))
-        self.eref = {}
-        self.elab = {}
-        for i, m2 in enumerate(MS2):
-            e = seth_hill(S, m2)
-            if fm(rec["eref"][i]) != e:
-                raise OracleMismatch("spec and harness disagree on E_ref(m2=%d)" % m2)
-            lab = fconj(R, e)
-            if seth_hill(self.V, m2) != lab:
-                raise OracleMismatch("(V^2m - I)/2m != R.E_ref.R^T in exact arithmetic, m2=%d" % m2)
-            if int(rec["elab"][i][1]) != 0:
-                if fm(rec["elab"][i]) != lab:
-                    raise OracleMismatch("spec and harness disagree on E_lab(m2=%d)" % m2)
-            elif rec.get("labexact"):
-                raise OracleMismatch("labexact record without lab tensor")
-            if ft(e) != e or ft(lab) != lab:
-                raise OracleMismatch("asymmetric exact tensor")
-            self.eref[m2] = e
-            self.elab[m2] = lab
-        self.identity = (S == fI())
-        self.diagonal = is_diag(S)
-        # --- floats
-        self.Sf, self.Rf, self.U0f = f2np(S), f2np(R), f2np(U0)
-        self.Vf = f2np(self.V)
-        self.ubi_f, self.ubi0_f, self.ub0_f = f2np(self.ubi), f2np(self.ubi0), f2np(self.ub0)
-        self.Ff = f2np(self.F)
-        self.cell = cell_from_mt(self.mt0)
-        # logarithmic strain (m = 0): exact for diagonal S (log of the rational diagonal),
-        # eigen-decomposition of the exact symmetric S otherwise; validated by exp(E0) = S
-        if self.diagonal:
-            e0 = np.diag([math.log(S[i][i].numerator) - math.log(S[i][i].denominator) for i in range(3)])
-        else:
-            w, v = np.linalg.eigh(self.Sf)
-            e0 = np.dot(v * np.log(w), v.T)
-            e0 = 0.5 * (e0 + e0.T)
-        from scipy.linalg import expm
-        if abs(expm(e0) - self.Sf).max() > 1e-13:
-            raise OracleMismatch("log strain oracle failed exp(E0) = S")
-        self.e0_ref = e0
-        self.e0_lab = np.dot(np.dot(self.Rf, e0), self.Rf.T)
-
-    # expected tensors (numpy) for exponent m (float) in the frame of a reference rotated by Q
-    def ref(self, m, Q=None):
-        if m == 0:
-            e = self.e0_ref
-            if Q is not None:
-                q = f2np(Q)
-                e = np.dot(np.dot(q.T, e), q)
-            return e
-        e = self.eref[int(round(2 * m))]
-        if Q is not None:
-            e = fconjT(Q, e)
-        return f2np(e)
-
-    def lab(self, m):
-        if m == 0:
-            return self.e0_lab
-        return f2np(self.elab[int(round(2 * m))])
-
-    def map_U(self):
-        """U of the strained grain as ImageD11 defines it (UB = U.B, B upper triangular from the
-        strained cell): finished in floats from the exact UB and the exact reciprocal metric."""
-        ub = finv(self.ubi)
-        rmt = fmm(ft(ub), ub)
-        B = np.linalg.cholesky(f2np(rmt)).T           # upper triangular, B^T B = rmt
-        return np.dot(f2np(ub), np.linalg.inv(B))
-
-
-def cell_from_mt(mt):
-    a, b, c = [math.sqrt(float(mt[i][i])) for i in range(3)]
-    al = math.degrees(math.acos(float(mt[1][2]) / b / c))
-    be = math.degrees(math.acos(float(mt[0][2]) / a / c))
-    ga = math.degrees(math.acos(float(mt[0][1]) / a / b))
-    return [a, b, c, al, be, ga]
-
-
-def close(x, e):
-    """|x - e| <= 1e-9*scale + 1e-12, scale = largest magnitude in the expected tensor; NaN only matches NaN"""
-    x = np.asarray(x, float)
-    e = np.asarray(e, float)
-    if x.shape != e.shape:
-        return False
-    nx, ne = np.isnan(x), np.isnan(e)
-    if (nx != ne).any():
-        return False
-    if ne.all():
-        return True
-    scale = np.abs(e[~ne]).max()
-    return bool((np.abs(x[~ne] - e[~ne]) <= 1e-9 * scale + 1e-12).all())
-
-
-def e6(mat):
-    return np.array([mat[0, 0], mat[0, 1], mat[0, 2], mat[1, 1], mat[1, 2], mat[2, 2]])
+from c10_exact import (fm, fI, fmm, ft, finv, fsub, fscale, fconj, fconjT, seth_hill, f2np, is_diag, rownorm,
+                       OracleMismatch, U0P, PERM, ExactState, Oracle, shrink, close, e6, MS2)
+import c10_exact as X
+import c10_hist as H
 
 
 ALLM = [-1.0, -0.5, 0.0, 0.5, 1.0, 1.5, 2.0]
@@ -292,6 +116,12 @@ def load_modules():
     _loaded.append(True)
 
 
+FLOOR = 1e-12            # absolute floor of the comparisons at strains of 5-10 % (tolerance line of CONVENTIONS.md)
+FLOOR_SMALL = 3e-14      # small-strain family and exact zeros: 128 ulp(1), the rounding of the O(1) entries of F
+                         # (largest deviation measured on the unchanged tree: 3.3e-15)
+SHRINKS = (100, 10000)   # S' = I + (S - I)/k : strains of 1e-3 and 1e-5
+
+
 class Replayer(object):
     def __init__(self, perturb=None):
         load_modules()
@@ -304,21 +134,54 @@ class Replayer(object):
         self.perturb = perturb        # selftest hook: name of the expected value to corrupt
         self.failures = []            # (route, index, detail)
         self.ncmp = 0
+        self.fam = {"small_strain_cases": 0, "small_strain_comparisons": 0, "first_order_pairs_judged": 0,
+                    "first_order_pairs_bound_below_strain": 0, "one_dgt_object_all_m": 0, "dgt_mixed_arguments": 0,
+                    "broadcast_single_cell_stacks": 0, "bare_3x3_calls": 0, "dirty_output_buffer_calls": 0,
+                    "multi_layer_map_voxels": 0, "orphan_voxels_in_TensorMap": 0, "exact_zero_comparisons": 0}
 
-    def cmp(self, route, idx, got, exp, m=None):
+    def mods(self):
+        return {"grain": self.grain, "fs": self.fs, "unitcell": self.unitcell, "tm": self.tm}
+
+    def cmp(self, route, idx, got, exp, m=None, floor=None):
         self.ncmp += 1
-        if not close(got, exp):
+        if floor is None:
+            floor = FLOOR
+            if not np.asarray(exp, float).any():      # "vanish exactly": judged at the rounding floor
+                floor = FLOOR_SMALL
+                self.fam["exact_zero_comparisons"] += 1
+        if not close(got, exp, floor=floor):
             self.failures.append((route, idx, {"m": m, "got": np.asarray(got, float).tolist(),
                                                "expected": np.asarray(exp, float).tolist()}))
             return False
         return True
 
-    def cmp_sym(self, route, idx, t, exp, m=None):
+    def cmp_sym(self, route, idx, t, exp, m=None, floor=FLOOR):
         self.ncmp += 1
         t = np.asarray(t, float)
         scale = np.abs(exp).max()
-        if not (np.abs(t - t.T) <= 1e-9 * scale + 1e-12).all():
+        if not (np.abs(t - t.T) <= 1e-9 * scale + floor).all():
             self.failures.append((route, idx, {"m": m, "got": t.tolist(), "expected": "symmetric"}))
+
+    def first_order(self, route, idx, o, tens, floor):
+        """the property's first-order clause on what the CODE returned: for all pairs m, m' the tensors of one
+        route differ by at most K2.r^2 entrywise (r = max row sum of e = S - I >= spectral radius; spectral
+        calculus, Strain.tla FirstOrder: |E_m - e| <= (K2/2) r^2 in the 2-norm, which no rotation changes;
+        K2 = 5 for r <= 1/10, 14 for r <= 3/10)"""
+        r = float(o.rn)
+        k2 = 5.0 if o.rn <= Fr(1, 10) else 14.0
+        bound = k2 * r * r
+        ms = sorted(tens)
+        worst, pair = 0.0, None
+        for i in range(len(ms)):
+            for j in range(i + 1, len(ms)):
+                d = float(np.abs(np.asarray(tens[ms[i]]) - np.asarray(tens[ms[j]])).max())
+                self.fam["first_order_pairs_judged"] += 1
+                if d > worst:
+                    worst, pair = d, (ms[i], ms[j])
+        self.fam["first_order_pairs_bound_below_strain"] += (len(ms) * (len(ms) - 1) // 2) * (0 < bound < r)
+        self.ncmp += 1
+        if not worst <= bound * (1 + 1e-9) + floor:
+            self.failures.append((route, idx, {"m": list(pair), "got": worst, "expected": "<= %.6g" % bound}))
 
     # ---- per grain routes
     def per_case(self, idx, o):
@@ -329,6 +192,13 @@ class Replayer(object):
         Qp = fmm(o.U0, ft(U0P))
         cell = list(o.cell)
         pert = self.perturb
+        # ONE DeformationGradientTensor object for the whole m loop (its _svd / _vrs caches are shared by every
+        # m and both frames), F / U / VRS read before and after
+        D = self.fs.DeformationGradientTensor(o.ubi_f, o.ub0_f)
+        expF = o.Ff if pert != "F_transposed" else o.Ff.T
+        self.cmp("DeformationGradientTensor.F", idx, D.F, expF)
+        self.fam["one_dgt_object_all_m"] += 1
+        tens_ref, tens_lab = {}, {}
         for m in ALLM:
             exp_ref = o.ref(m)
             exp_ref_cell = o.ref(m, o.U0)
@@ -346,6 +216,7 @@ class Replayer(object):
             self.cmp("grain.eps_grain(cell) e6", idx, g.eps_grain(np.array(cell), m), e6(exp_ref_cell), m)
             sm = g.eps_sample_matrix(cell, m)
             self.cmp("grain.eps_sample_matrix(cell)", idx, sm, exp_lab, m)
+            tens_ref[m], tens_lab[m] = em, sm
             x6 = e6(exp_lab)
             if pert == "e6order":
                 x6 = x6[[0, 1, 2, 4, 3, 5]]
@@ -363,24 +234,39 @@ class Replayer(object):
             # symmetry (exact in the property; floats: to rounding at the tensor's scale)
             self.cmp_sym("symmetry of grain.eps_grain_matrix", idx, em, exp_ref_cell, m)
             self.cmp_sym("symmetry of grain.eps_sample_matrix", idx, sm, exp_lab, m)
-            # C: DeformationGradientTensor directly
-            D = self.fs.DeformationGradientTensor(o.ubi_f, o.ub0_f)
+            # C: DeformationGradientTensor directly (the shared object, ref and lab interleaved)
             self.cmp("DeformationGradientTensor.finite_strain_ref", idx, D.finite_strain_ref(m), exp_ref, m)
             self.cmp("DeformationGradientTensor.finite_strain_lab", idx, D.finite_strain_lab(m), exp_lab, m)
+        # the same object again, the other way round (every cache is filled now)
+        for m in reversed(ALLM):
+            self.cmp("DeformationGradientTensor.finite_strain_lab [asked again]", idx, D.finite_strain_lab(m), o.lab(m), m)
+            self.cmp("DeformationGradientTensor.finite_strain_ref [asked again]", idx, D.finite_strain_ref(m), o.ref(m), m)
+        self.first_order("first order agreement of grain.eps_grain_matrix(cell) over m", idx, o, tens_ref, FLOOR)
+        self.first_order("first order agreement of grain.eps_sample_matrix(cell) over m", idx, o, tens_lab, FLOOR)
         # defaults: m = 1/2
         self.cmp("grain.eps_grain(cell) default m", idx, g.eps_grain(cell), e6(o.ref(0.5, o.U0)))
         self.cmp("grain.eps_sample(grain) default m", idx, g.eps_sample(g0), e6(o.lab(0.5)))
-        # polar decomposition
-        D = self.fs.DeformationGradientTensor(o.ubi_f, o.ub0_f)
-        expF = o.Ff if pert != "F_transposed" else o.Ff.T
+        # polar decomposition (after the strains were asked) and F untouched
         self.cmp("DeformationGradientTensor.F", idx, D.F, expF)
         D2 = self.fs.DeformationGradientTensor(g, g0)
         self.cmp("DeformationGradientTensor(grain, grain).F", idx, D2.F, o.Ff)
+        self.cmp("DeformationGradientTensor(grain, array).F", idx,
+                 self.fs.DeformationGradientTensor(g, o.ub0_f).F, o.Ff)
+        D4 = self.fs.DeformationGradientTensor(o.ubi_f, g0)
+        self.cmp("DeformationGradientTensor(array, grain).F", idx, D4.F, o.Ff)
+        self.cmp("DeformationGradientTensor(array, grain).finite_strain_ref", idx, D4.finite_strain_ref(1.5), o.ref(1.5), 1.5)
+        self.fam["dgt_mixed_arguments"] += 2
         self.cmp("DeformationGradientTensor.U", idx, D.U, o.Rf)
         V, Rr, Ss = D.VRS
         self.cmp("DeformationGradientTensor.VRS[V]", idx, V, o.Vf)
         self.cmp("DeformationGradientTensor.VRS[R]", idx, Rr, o.Rf)
         self.cmp("DeformationGradientTensor.VRS[S]", idx, Ss, o.Sf)
+        # a fresh object: polar factors BEFORE any strain was asked
+        D5 = self.fs.DeformationGradientTensor(o.ubi_f, o.ub0_f)
+        V, Rr, Ss = D5.VRS
+        self.cmp("DeformationGradientTensor.VRS[V]", idx, V, o.Vf)
+        self.cmp("DeformationGradientTensor.U", idx, D5.U, o.Rf)
+        self.cmp("DeformationGradientTensor.finite_strain_lab", idx, D5.finite_strain_lab(0.0), o.lab(0.0), 0.0)
         self.cmp("DeformationGradientTensor(grain, grain) default m", idx, D2.finite_strain_lab(), o.lab(0.5))
         # e6 helpers of both modules
         t = o.lab(2.0)
@@ -389,8 +275,38 @@ class Replayer(object):
             self.cmp(nm + ".symm_to_e6", idx, v, e6(t))
             self.cmp(nm + ".e6_to_symm", idx, mod.e6_to_symm(v), t)
 
+    def per_case_small(self, idx, s):
+        """small-strain member of the family (S' = I + e/k, harness-side exact fractions): exact values at
+        1e-9 of the strain + FLOOR_SMALL, first-order clause on the code's output"""
+        G = self.grain.grain
+        g = G(s.ubi_f)
+        g0 = G(s.ubi0_f)
+        cell = list(s.cell)
+        n0 = self.ncmp
+        D = self.fs.DeformationGradientTensor(s.ubi_f, s.ub0_f)
+        tr, tl, tg = {}, {}, {}
+        for m in ALLM:
+            exp_lab = s.lab(m)
+            if self.perturb == "small" and m == 0.5:
+                exp_lab = exp_lab * (1 + 1e-6)
+            tr[m] = g.eps_grain_matrix(cell, m)
+            tl[m] = g.eps_sample_matrix(cell, m)
+            tg[m] = g.eps_grain_matrix(g0, m)
+            self.cmp("small strain: grain.eps_grain_matrix(cell)", idx, tr[m], s.ref(m, s.U0), m, FLOOR_SMALL)
+            self.cmp("small strain: grain.eps_sample_matrix(cell)", idx, tl[m], exp_lab, m, FLOOR_SMALL)
+            self.cmp("small strain: grain.eps_grain_matrix(grain)", idx, tg[m], s.ref(m), m, FLOOR_SMALL)
+            self.cmp("small strain: grain.eps_sample(grain) e6", idx, g.eps_sample(g0, m), e6(s.lab(m)), m, FLOOR_SMALL)
+            self.cmp("small strain: DeformationGradientTensor.finite_strain_ref", idx, D.finite_strain_ref(m),
+                     s.ref(m), m, FLOOR_SMALL)
+            self.cmp_sym("small strain: symmetry of grain.eps_sample_matrix", idx, tl[m], exp_lab, m, FLOOR_SMALL)
+        self.first_order("small strain: first order agreement of grain.eps_grain_matrix(cell) over m", idx, s, tr, FLOOR_SMALL)
+        self.first_order("small strain: first order agreement of grain.eps_sample_matrix(cell) over m", idx, s, tl, FLOOR_SMALL)
+        self.first_order("small strain: first order agreement of grain.eps_grain_matrix(grain) over m", idx, s, tg, FLOOR_SMALL)
+        self.fam["small_strain_cases"] += 1
+        self.fam["small_strain_comparisons"] += self.ncmp - n0
+
     # ---- vectorised routes (m = 1/2), all cases in one call, with masked voxels
-    def batch(self, oracles):
+    def batch(self, oracles, smalls=()):
         tm = self.tm
         n = len(oracles)
         pad = 3
@@ -406,15 +322,69 @@ class Replayer(object):
         nan33 = np.full((3, 3), np.nan)
         es = tm.ubi_and_unitcell_to_eps_sample(ubis, cells)
         ec = tm.ubi_and_unitcell_to_eps_crystal(ubis, cells)
+        # the same call into an explicit, dirty output buffer (every voxel must be written, NaN arms included)
+        es_d = np.full((N, 3, 3), 7.25e300)
+        ec_d = np.full((N, 3, 3), -3.5e-300)
+        r1 = tm.ubi_and_unitcell_to_eps_sample(ubis, cells, es_d)
+        r2 = tm.ubi_and_unitcell_to_eps_crystal(ubis, cells, ec_d)
+        self.fam["dirty_output_buffer_calls"] += 2
+        if r1 is not None and r1 is not es_d:
+            es_d = np.asarray(r1)
+        if r2 is not None and r2 is not ec_d:
+            ec_d = np.asarray(r2)
         for i, o in enumerate(oracles):
             exp_lab = o.lab(0.5)
             if self.perturb == "map":
                 exp_lab = exp_lab + 1e-7
             self.cmp("tensor_map.ubi_and_unitcell_to_eps_sample", i, es[i], exp_lab, 0.5)
             self.cmp("tensor_map.ubi_and_unitcell_to_eps_crystal", i, ec[i], o.ref(0.5, o.U0), 0.5)
+            self.cmp("tensor_map.ubi_and_unitcell_to_eps_sample [dirty output buffer]", i, es_d[i], o.lab(0.5), 0.5)
+            self.cmp("tensor_map.ubi_and_unitcell_to_eps_crystal [dirty output buffer]", i, ec_d[i], o.ref(0.5, o.U0), 0.5)
         for j in range(n, N):
             self.cmp("tensor_map.ubi_and_unitcell_to_eps_sample NaN mask", 0, es[j], nan33)
             self.cmp("tensor_map.ubi_and_unitcell_to_eps_crystal NaN mask", 0, ec[j], nan33)
+            self.cmp("tensor_map.ubi_and_unitcell_to_eps_sample NaN mask [dirty output buffer]", 0, es_d[j], nan33)
+            self.cmp("tensor_map.ubi_and_unitcell_to_eps_crystal NaN mask [dirty output buffer]", 0, ec_d[j], nan33)
+        # call shapes: ONE (6,) reference cell broadcast over a (2, k, 3, 3) stack of the cases that share it
+        # (a NaN voxel inside), and bare (3, 3) + (6,) calls
+        bycell = {}
+        for i, o in enumerate(oracles):
+            bycell.setdefault(tuple(o.cell), []).append(i)
+        for key in sorted(bycell):
+            idxs = bycell[key]
+            k = (len(idxs) + 2) // 2
+            stack = np.full((2 * k, 3, 3), np.nan)
+            for j, i in enumerate(idxs):
+                stack[j] = oracles[i].ubi_f
+            stack = stack.reshape(2, k, 3, 3)
+            c6 = np.array(key, float)
+            s1 = tm.ubi_and_unitcell_to_eps_sample(stack, c6).reshape(2 * k, 3, 3)
+            c1 = tm.ubi_and_unitcell_to_eps_crystal(stack, c6).reshape(2 * k, 3, 3)
+            self.fam["broadcast_single_cell_stacks"] += 1
+            for j, i in enumerate(idxs):
+                o = oracles[i]
+                self.cmp("tensor_map.ubi_and_unitcell_to_eps_sample [one (6,) cell over a stack]", i, s1[j], o.lab(0.5), 0.5)
+                self.cmp("tensor_map.ubi_and_unitcell_to_eps_crystal [one (6,) cell over a stack]", i, c1[j], o.ref(0.5, o.U0), 0.5)
+            for j in range(len(idxs), 2 * k):
+                self.cmp("tensor_map.ubi_and_unitcell_to_eps_sample NaN mask [one (6,) cell over a stack]", 0, s1[j], nan33)
+                self.cmp("tensor_map.ubi_and_unitcell_to_eps_crystal NaN mask [one (6,) cell over a stack]", 0, c1[j], nan33)
+            for i in idxs[:2]:
+                o = oracles[i]
+                self.fam["bare_3x3_calls"] += 1
+                self.cmp("tensor_map.ubi_and_unitcell_to_eps_sample [bare (3,3)]", i,
+                         tm.ubi_and_unitcell_to_eps_sample(o.ubi_f, c6), o.lab(0.5), 0.5)
+                self.cmp("tensor_map.ubi_and_unitcell_to_eps_crystal [bare (3,3)]", i,
+                         tm.ubi_and_unitcell_to_eps_crystal(o.ubi_f, c6), o.ref(0.5, o.U0), 0.5)
+        # small-strain family through the kernels
+        if smalls:
+            su = np.array([s.ubi_f for _, s in smalls])
+            scl = np.array([s.cell for _, s in smalls])
+            ses = tm.ubi_and_unitcell_to_eps_sample(su, scl)
+            sec = tm.ubi_and_unitcell_to_eps_crystal(su, scl)
+            for j, (i, s) in enumerate(smalls):
+                self.cmp("small strain: tensor_map.ubi_and_unitcell_to_eps_sample", i, ses[j], s.lab(0.5), 0.5, FLOOR_SMALL)
+                self.cmp("small strain: tensor_map.ubi_and_unitcell_to_eps_crystal", i, sec[j], s.ref(0.5, s.U0), 0.5, FLOOR_SMALL)
+                self.fam["small_strain_comparisons"] += 2
         # tensor rotations with the exact R as U, every exponent
         for m in ALLM:
             T = np.full((N, 3, 3), np.nan)
@@ -432,16 +402,23 @@ class Replayer(object):
             for j in range(n, N):
                 self.cmp("tensor_map.tensor_crystal_to_sample NaN mask", 0, ts[j], nan33)
                 self.cmp("tensor_map.tensor_sample_to_crystal NaN mask", 0, back[j], nan33)
-        # TensorMap objects: one phase per distinct reference cell, masked voxels with phase -1
+        # TensorMap objects: one phase per distinct reference cell; phase ids start at 2, leave gaps and are inserted
+        # in descending order; masked voxels with phase -1; two layers (NZ = 2); two orphan voxels (valid UBI,
+        # phase id without reference: NaN strains expected there and only there)
         cellkeys = []
         for o in oracles:
             k = tuple(o.cell)
             if k not in cellkeys:
                 cellkeys.append(k)
-        phases = dict((i, self.unitcell.unitcell(list(k))) for i, k in enumerate(cellkeys))
-        nx = int(math.ceil(math.sqrt(N)))
-        ny = int(math.ceil(N / float(nx)))
-        tot = nx * ny
+        ids = [2 + 3 * i for i in range(len(cellkeys))]
+        phases = {}
+        for i in reversed(range(len(cellkeys))):
+            phases[ids[i]] = self.unitcell.unitcell(list(cellkeys[i]))
+        orphan_id = 1
+        north = 2
+        nx = int(math.ceil(math.sqrt((N + north) / 2.0)))
+        ny = int(math.ceil((N + north) / float(2 * nx)))
+        tot = 2 * nx * ny
         UBI = np.full((tot, 3, 3), np.nan)
         pid = np.full((tot,), -1, int)
         order = list(range(n))
@@ -449,24 +426,32 @@ class Replayer(object):
         slots = [s for s in range(tot)]
         masked = set(slots[2::7])                # every 7th voxel (offset 2) is masked when possible
         free = [s for s in slots if s not in masked]
-        if len(free) < n:
+        if len(free) < n + north:
             free = slots
-            masked = set(slots[n:])
+            masked = set(slots[n + north:])
         where = free[:n]
-        masked = set(slots) - set(where)
+        orphans = free[n:n + north]
+        masked = set(slots) - set(where) - set(orphans)
         for i, s in zip(order, where):
             UBI[s] = oracles[i].ubi_f
-            pid[s] = cellkeys.index(tuple(oracles[i].cell))
+            pid[s] = ids[cellkeys.index(tuple(oracles[i].cell))]
+        for j, s in enumerate(orphans):
+            UBI[s] = oracles[j % n].ubi_f
+            pid[s] = orphan_id
+        self.fam["orphan_voxels_in_TensorMap"] += len(orphans)
+        self.fam["multi_layer_map_voxels"] += sum(1 for s in where if s >= nx * ny)
 
         def newmap():
-            return tm.TensorMap(maps={"UBI": UBI.reshape(1, ny, nx, 3, 3).copy(),
-                                      "phase_ids": pid.reshape(1, ny, nx).copy()},
+            return tm.TensorMap(maps={"UBI": UBI.reshape(2, ny, nx, 3, 3).copy(),
+                                      "phase_ids": pid.reshape(2, ny, nx).copy()},
                                 phases=dict(phases))
         sink = io.StringIO()
         with contextlib.redirect_stdout(sink):
             t1 = newmap()
             es1 = np.array(t1.eps_sample).reshape(tot, 3, 3)           # from UBI
             ec1 = np.array(t1.eps_crystal).reshape(tot, 3, 3)          # derived: U^T . eps_sample . U
+            eh1 = np.array(t1.eps_hydro).reshape(tot, 3, 3)
+            ed1 = np.array(t1.eps_devia).reshape(tot, 3, 3)
             t2 = newmap()
             ec2 = np.array(t2.eps_crystal).reshape(tot, 3, 3)          # from UBI
             es2 = np.array(t2.eps_sample).reshape(tot, 3, 3)           # derived: U . eps_crystal . U^T
@@ -477,6 +462,9 @@ class Replayer(object):
             Um = o.map_U()
             self.cmp("TensorMap.eps_sample [from UBI]", i, es1[s], lab, 0.5)
             self.cmp("TensorMap.eps_crystal [from UBI]", i, ec2[s], cry, 0.5)
+            hyd = np.trace(lab) / 3.0 * np.eye(3)
+            self.cmp("TensorMap.eps_hydro", i, eh1[s], hyd, 0.5)
+            self.cmp("TensorMap.eps_devia", i, ed1[s], lab - hyd, 0.5)
             # derived maps rotate with the map's own U (= R exactly when S is diagonal and U0 = I)
             self.cmp("TensorMap.eps_crystal [rotated from eps_sample]", i, ec1[s],
                      np.dot(np.dot(Um.T, lab), Um), 0.5)
@@ -491,13 +479,41 @@ class Replayer(object):
             self.cmp("TensorMap.eps_crystal NaN mask", 0, ec2[s], nan33)
             self.cmp("TensorMap.eps_crystal NaN mask", 0, ec1[s], nan33)
             self.cmp("TensorMap.eps_sample NaN mask", 0, es2[s], nan33)
+            self.cmp("TensorMap.eps_hydro NaN mask", 0, eh1[s], nan33)
+        for s in orphans:
+            self.cmp("TensorMap.eps_sample [voxel whose phase id has no reference]", 0, es1[s], nan33)
+            self.cmp("TensorMap.eps_crystal [voxel whose phase id has no reference]", 0, ec2[s], nan33)
+            self.cmp("TensorMap.eps_crystal [voxel whose phase id has no reference]", 0, ec1[s], nan33)
+            self.cmp("TensorMap.eps_sample [voxel whose phase id has no reference]", 0, es2[s], nan33)
         self.nmasked = len(masked)
 
-    def run(self, recs):
+    def guarded(self, what, idx, fn, *args):
+        """an exception of the code under test is a failure of that route, not of the harness"""
+        try:
+            fn(*args)
+        except common.MachineryError:
+            raise
+        except Exception as e:
+            import traceback
+            self.failures.append(("%s raised %s" % (what, type(e).__name__), idx,
+                                  {"m": None, "got": traceback.format_exc()[-1500:], "expected": "no exception"}))
+
+    def run(self, recs, small=True, small_every=1):
         oracles = [Oracle(r) for r in recs]
+        smalls = []
+        nsm = 0
         for i, o in enumerate(oracles):
-            self.per_case(i, o)
-        self.batch(oracles)
+            self.guarded("per-grain routes", i, self.per_case, i, o)
+            if small and not o.identity:
+                nsm += 1
+                if nsm % small_every:
+                    continue
+                # one small-strain member per case: strains of 1e-3 (even cases) or 1e-5 (odd cases)
+                s = shrink(o, SHRINKS[i % 2])
+                self.guarded("per-grain routes (small strain)", i, self.per_case_small, i, s)
+                smalls.append((i, s))
+        self.nmasked = 0
+        self.guarded("vectorised routes", 0, self.batch, oracles, smalls)
         return oracles
 
 
@@ -524,7 +540,17 @@ def parse_records(printed):
     return recs, bad
 
 
-def run_spec(chk, cfgname, workers=16, coverage=False, timeout=1500):
+def tlc_workers():
+    """committed value 16; VERIF_TLC_WORKERS lowers it on a crowded box (the number of simulated behaviours does
+    not depend on it)"""
+    try:
+        return max(1, int(os.environ.get("VERIF_TLC_WORKERS", "16")))
+    except ValueError:
+        return 16
+
+
+def run_spec(chk, cfgname, workers=None, coverage=False, timeout=1500):
+    workers = workers or tlc_workers()
     cfg = os.path.join(common.SPECS, cfgname)
     res = common.run_tlc("Strain", cfg, workers=workers, coverage=coverage, timeout=timeout)
     recs, bad = parse_records(res.printed)
@@ -536,9 +562,31 @@ def run_spec(chk, cfgname, workers=16, coverage=False, timeout=1500):
     return res, recs
 
 
+def run_hist_spec(cfgname, behaviours=None, depth=None, timeout=1500, workers=None):
+    """machine HSpec: `behaviours` = number of simulated behaviours (None: exhaustive)"""
+    cfg = os.path.join(common.SPECS, cfgname)
+    kw = {}
+    if behaviours is not None:
+        workers = 4             # fixed: the behaviours drawn for one VERIF_SEED must not depend on the box
+        kw = {"simulate": max(1, behaviours // workers), "depth": depth, "seed_": common.seed()}
+    else:
+        workers = workers or tlc_workers()
+    res = common.run_tlc("Strain", cfg, workers=workers, timeout=timeout, **kw)
+    recs, bad = H.parse_histories(res.printed)
+    if bad and res.error is None:
+        res = common.run_tlc("Strain", cfg, workers=1, timeout=4 * timeout, **kw)
+        recs, bad = H.parse_histories(res.printed)
+        if bad:
+            raise common.MachineryError("unparsable TLC output lines (%d)" % bad)
+    return res, recs
+
+
 ACTIONS = ("PickRef", "PickStretch", "PickRot", "Deform", "Ref", "Lab")
 INVARIANTS = ("RefLatticeOK", "PolarOK", "RefIsSethHill", "RefSym", "LabIsRotatedRef", "Objectivity",
               "LabObjectivity", "ZeroIff", "FirstOrder")
+HINVARIANTS = ("HAnswersCurrent", "HPolarOK", "MapExpCurrent", "MapRepairedCurrent", "DzeroByKey")
+HOPS = {"grain": ("new", "set_ubi", "newref", "reorient", "ask", "dgt", "dask", "dread"),
+        "map": ("newmap", "read", "assign")}
 
 
 def judge(chk, recs, rp, oracles):
@@ -573,32 +621,196 @@ def judge(chk, recs, rp, oracles):
     return byroute
 
 
+# ----------------------------------------------------------------------------------------------
+# object histories (machine HSpec)
+
+STALE_WHAT = ("TensorMap.%s still shows the tensors of a previous UBI map after a new UBI map was assigned "
+              "(clear_cache keeps the eps maps)")
+
+
+class HistoryRun(object):
+    """binds the histories TLC printed to exact states, replays them on real objects, judges the failures"""
+
+    def __init__(self, mods, oracles, seed, perturb=None):
+        self.mods = mods
+        self.rng = random.Random(1000003 * seed + 17)
+        self.gr = H.GrainReplayer(mods, perturb=perturb)
+        self.mr = H.MapReplayer(mods, perturb=perturb)
+        self.ghist = []            # GrainHistory objects, index = history index of the replayer
+        self.mbind = []            # MapBinding objects
+        # deformations of machine Spec grouped by reference <<L0, U0>> (lifted grain histories) and by reference
+        # cell (voxels of the maps)
+        byref, bycell = {}, {}
+        for o in oracles:
+            d = o.describe()
+            byref.setdefault(json.dumps(d["L0"]) + json.dumps(d["U0"]), []).append(o)
+            bycell.setdefault(tuple(o.cell), []).append(o)
+        self.refgroups = [byref[k] for k in sorted(byref)]
+        self.cellgroups = [bycell[k] for k in sorted(bycell)]
+        rots = []
+        for o in oracles:
+            if all(o.R != q for q in rots):
+                rots.append(o.R)
+        for q in (U0P, PERM, fmm(U0P, PERM)):
+            if all(q != x for x in rots):
+                rots.append(q)
+        self.rots = rots
+
+    def grain(self, rec, lift=True):
+        Hc = H.GrainHistory(rec, check_ans=not rec.get("lifted"))
+        self.gr.replay(len(self.ghist), Hc)
+        self.ghist.append(Hc)
+        if lift and self.refgroups:
+            grp = self.rng.choice(self.refgroups)
+            lr = H.lift_grain_history(rec, grp, self.rots, self.rng)
+            if lr is not None:
+                self.grain(lr, lift=False)
+
+    def map(self, rec, nver, bind=None):
+        if len(self.cellgroups) < 3 and bind is None:
+            return
+        B = H.MapBinding(rec, self.cellgroups, self.rng, nver, bind=bind)
+        self.mr.replay(len(self.mbind), B)
+        self.mbind.append(B)
+
+    def run(self, hrecs, nver):
+        for r in hrecs:
+            if r["kind"] == "grain":
+                self.grain(r)
+            else:
+                self.map(r, nver)
+
+    def judge(self, chk):
+        """violations / known finding for the history failures; returns {route: count}"""
+        byroute = {}
+        for route, hi, oi, d in self.gr.failures:
+            byroute.setdefault(route, []).append(("grain", hi, oi, d))
+        for route, hi, oi, d in self.mr.failures:
+            byroute.setdefault(route, []).append(("map", hi, oi, d))
+        entry = chk.finding(STALE_FINDING_ID)
+        # the stale-map class (a recorded / recordable finding) is reported after everything else
+        split = {}
+        for route, fails in byroute.items():
+            for f in fails:
+                split.setdefault((bool(f[3].get("stale")), route), []).append(f)
+        for _, route in sorted(split):
+            fails = split[(_, route)]
+            # the shortest history first
+            def size(f):
+                kind, hi, oi, d = f
+                rec = self.ghist[hi].rec if kind == "grain" else self.mbind[hi].rec
+                return (not rec.get("counterexample"), bool(rec.get("lifted")), oi, len(rec["hist"]), hi)
+            nrep = 0
+            seen = set()
+            for kind, hi, oi, d in sorted(fails, key=size):
+                if kind == "map" and d.get("stale"):
+                    # structural match of the class: the value read is, voxel for voxel, the value the model of the
+                    # code AS IT IS predicts (the tensor of a previous UBI map) and that differs from the property's
+                    name = route.split("TensorMap.")[-1]
+                    if entry is not None:
+                        chk.known_finding(STALE_FINDING_ID, STALE_WHAT % "eps_sample / eps_crystal / eps_hydro / eps_devia")
+                        continue
+                    what = (STALE_WHAT % name) + " [%d failing reads of this map]" % len(fails)
+                else:
+                    what = "%s differs from the exact tensor of the object's current state (operation %d of the " \
+                           "history; %d failing answers on this route)" % (route, oi, len(fails))
+                if hi in seen or nrep >= (1 if d.get("stale") else MAXV_PER_ROUTE):
+                    continue
+                nrep += 1
+                seen.add(hi)
+                if kind == "grain":
+                    case = {"history": self.ghist[hi].rec, "route": route, "operation": oi, "detail": d}
+                else:
+                    B = self.mbind[hi]
+                    case = {"history": B.rec, "binding": B.to_json(), "route": route, "operation": oi, "detail": d}
+                chk.violation(what, case)
+        return dict((k_, len(v)) for k_, v in byroute.items())
+
+
+def asis_counterexample(chk, workers=None):
+    """Strain_map_asis.cfg: the model of TensorMap AS THE CODE IS violates MapAsIsCurrent; the history of the
+    counterexample's last state is returned for replay on a real TensorMap"""
+    cfg = os.path.join(common.SPECS, "Strain_map_asis.cfg")
+    res = common.run_tlc("Strain", cfg, workers=1, timeout=900)
+    chk.add_tlc("Strain_map_asis (code as it is; MapAsIsCurrent expected to be violated)", res)
+    if res.violated != ["MapAsIsCurrent"] or not res.trace:
+        raise common.MachineryError("Strain_map_asis: expected exactly the violation of MapAsIsCurrent, got %r\n%s" %
+                                    (res.violated, res.stdout[-2000:]))
+    hist = json.loads(json.dumps(common.parse_tla(res.trace[-1]["vars"]["hist"])))
+    rec = {"kind": "map", "hist": hist, "counterexample": True}
+    last = hist[-1]
+    if last["op"] != "read" or last["asis"] == last["exp"]:
+        raise common.MachineryError("Strain_map_asis: the counterexample does not end in a stale read: %r" % (last,))
+    return rec
+
+
+def history_vacuity(chk, hrecs, hr, tier):
+    ops = {}
+    for r in hrecs:
+        for o in r["hist"]:
+            ops[(r["kind"], o["op"])] = ops.get((r["kind"], o["op"]), 0) + 1
+    for kind, names in HOPS.items():
+        for nm in names:
+            if not ops.get((kind, nm)):
+                raise common.MachineryError("vacuity: no %s history contains the operation %s" % (kind, nm))
+    chk.notes["history_operations"] = dict(("%s.%s" % k_, v) for k_, v in sorted(ops.items()))
+    need_g = ("asks", "asks_m0", "ask_again_after_set_ubi_same_reference", "ask_after_reference_reoriented_in_place",
+              "ask_after_new_reference_object", "dgt_objects", "dgt_mixed_argument_kinds",
+              "dgt_objects_asked_for_2_or_more_m", "dgt_asked_after_set_ubi_of_its_grain", "dgt_reads",
+              "lifted_histories")
+    need_m = ("reads", "reads_after_assignment_of_a_cached_map", "reads_derived_by_rotation", "assign_setter",
+              "assign_item", "assign_add_map", "dict_not_0_to_n_in_order", "dict_multi_phase", "nz_above_1",
+              "orphan_voxels", "masked_voxels", "voxels_nan_in_one_version")
+    for k_ in need_g:
+        if not hr.gr.stats[k_]:
+            raise common.MachineryError("vacuity: grain histories never exercised %s" % k_)
+    for k_ in need_m:
+        if not hr.mr.stats[k_]:
+            raise common.MachineryError("vacuity: map histories never exercised %s" % k_)
+    chk.notes["grain_history_classes"] = dict(hr.gr.stats)
+    chk.notes["map_history_classes"] = dict(hr.mr.stats)
+
+
 def run(tier, replay=None):
     chk = common.Check(PROP, tier)
     shadow = private_shadow()
     common.use_shadow(shadow)
     load_modules()
-    chk.notes["tolerance"] = "abs(x-e) <= 1e-9*max|e| + 1e-12"
+    chk.notes["tolerance"] = ("abs(x-e) <= 1e-9*max|e| + 1e-12; small-strain family and exact zeros: "
+                              "abs(x-e) <= 1e-9*max|e| + 3e-14")
     if replay:
         with open(replay) as f:
             obj = json.load(f)
-        rec = obj["case"]["record"]
+        case = obj["case"]
         rp = Replayer()
-        oracles = rp.run([rec])
-        chk.case(json.dumps(rec, sort_keys=True))
-        chk.traces += 1
-        judge(chk, [rec], rp, oracles)
-        chk.rule = "replay of one saved record through every route"
+        if "history" in case:
+            hr = HistoryRun(rp.mods(), [], common.seed())
+            rec = case["history"]
+            if rec["kind"] == "grain":
+                hr.grain(rec, lift=False)
+            else:
+                hr.map(rec, case["binding"]["nver"], bind=case["binding"])
+            chk.case(json.dumps(rec, sort_keys=True))
+            chk.traces += 1
+            hr.judge(chk)
+            chk.rule = "replay of one saved history on one real object"
+        else:
+            rec = case["record"]
+            oracles = rp.run([rec])
+            chk.case(json.dumps(rec, sort_keys=True))
+            chk.traces += 1
+            judge(chk, [rec], rp, oracles)
+            chk.rule = "replay of one saved record through every route"
         chk.exhaustive = False
         return chk.finish()
 
     if tier == "quick":
-        res, recs = run_spec(chk, "Strain_q.cfg", coverage=False, timeout=600)
+        res, recs = run_spec(chk, "Strain_q.cfg", coverage=False, timeout=900)
         chk.add_tlc("Strain_q exhaustive", res)
     else:
-        res, recs = run_spec(chk, "Strain_t.cfg", coverage=False, timeout=2400)
+        res, recs = run_spec(chk, "Strain_t.cfg", coverage=False, timeout=3600)
         chk.add_tlc("Strain_t exhaustive", res)
-        resc, recsc = run_spec(chk, "Strain_q.cfg", coverage=True, timeout=1200)
+        resc, recsc = run_spec(chk, "Strain_q.cfg", coverage=True, timeout=1800)
         chk.add_tlc("Strain_q with coverage", resc, require_cover=ACTIONS)
         if not resc.coverage or any(resc.coverage.get(a, (0, 0))[1] == 0 for a in ACTIONS):
             raise common.MachineryError("vacuity: coverage of actions %r" % (resc.coverage,))
@@ -616,16 +828,56 @@ def run(tier, replay=None):
         raise common.MachineryError("TLC did not finish: %s" % res.stdout[-2000:])
     if not recs:
         raise common.MachineryError("TLC emitted no cases")
-    chk.notes["invariants_checked"] = list(INVARIANTS)
+    chk.notes["invariants_checked"] = list(INVARIANTS) + list(HINVARIANTS)
+
+    # ---- machine HSpec: histories on one object
+    nver = 3
+    if tier == "quick":
+        hres, hrecs = run_hist_spec("Strain_hist_q.cfg", behaviours=192, depth=16, timeout=900)
+        chk.add_tlc("Strain_hist_q -simulate (seed %d)" % common.seed(), hres)
+        hruns = [("Strain_hist_q", hres)]
+    else:
+        hres, hrecs = run_hist_spec("Strain_hist_t.cfg", behaviours=1600, depth=20, timeout=2400)
+        chk.add_tlc("Strain_hist_t -simulate (seed %d)" % common.seed(), hres)
+        hres2, hrecs2 = run_hist_spec("Strain_hist_q.cfg", behaviours=192, depth=16, timeout=900)
+        chk.add_tlc("Strain_hist_q -simulate (seed %d)" % common.seed(), hres2)
+        hres3, hrecs3 = run_hist_spec("Strain_map_t.cfg", timeout=2400)
+        chk.add_tlc("Strain_map_t exhaustive", hres3)
+        hruns = [("Strain_hist_t", hres), ("Strain_hist_q", hres2), ("Strain_map_t", hres3)]
+        hrecs = hrecs + hrecs2
+    for nm, r_ in hruns:
+        if r_.violated:
+            raise common.MachineryError("specification invariant violated in TLC (%s): %r\n%s" %
+                                        (nm, r_.violated, r_.stdout[-3000:]))
+        if not r_.finished:
+            raise common.MachineryError("TLC did not finish (%s): %s" % (nm, r_.stdout[-2000:]))
+    nall = len(hrecs)
+    hrecs = H.thin_siblings(hrecs, random.Random(common.seed()), keep=2)
+    if tier == "thorough":
+        hrecs += hrecs3                 # every map history of the exhaustive run
+    cex = asis_counterexample(chk)
+    hrecs.append(cex)
+    chk.notes["histories_printed_by_tlc"] = nall + (len(hrecs3) if tier == "thorough" else 0)
 
     if tier == "thorough":
-        selftest(recs)
-        chk.notes["selftest"] = "perturbed expectations rejected on 5 route families + exact cross-check"
+        selftest(recs, hrecs)
+        chk.notes["selftest"] = ("perturbed expectations rejected on 5 route families, the small-strain family, "
+                                 "grain and map histories + exact cross-checks")
     rp = Replayer()
-    oracles = rp.run(recs)
+    oracles = rp.run(recs, small_every=(1 if tier == "quick" else 4))
+    hr = HistoryRun(rp.mods(), oracles, common.seed())
+    hr.run(hrecs, nver)
+    # the verdict first: a vacuity guard that trips on a broken tree (a route that raised never counted its family)
+    # must find the violations already recorded (run.py then reports them, exit 1)
+    byroute = judge(chk, recs, rp, oracles)
+    byroute_h = hr.judge(chk)
+    chk.notes["failing_routes"] = dict((k_, len(v)) for k_, v in byroute.items())
+    chk.notes["failing_history_routes"] = byroute_h
+    history_vacuity(chk, hrecs, hr, tier)
     # vacuity / non-triviality accounting
     cls = {"identity_stretch": 0, "diagonal_stretch": 0, "full_stretch": 0, "twentieths": 0,
-           "pythagorean_rotation": 0, "rotated_reference": 0, "oblique_cell": 0, "lab_exact_in_tlc": 0,
+           "pythagorean_rotation": 0, "two_axis_pythagorean_rotation": 0, "rotated_reference": 0, "oblique_cell": 0,
+           "cell_alpha_beta_90_gamma_not_90": 0, "lab_exact_in_tlc": 0,
            "first_order_bound_below_strain": 0}
     for r, o in zip(recs, oracles):
         chk.case(json.dumps(r, sort_keys=True), nontrivial=not o.identity)
@@ -635,8 +887,10 @@ def run(tier, replay=None):
         cls["full_stretch"] += (not o.diagonal)
         cls["twentieths"] += (int(r["S"][1]) == 20)
         cls["pythagorean_rotation"] += (int(r["R"][1]) > 1)
+        cls["two_axis_pythagorean_rotation"] += (int(r["R"][1]) == 25)
         cls["rotated_reference"] += (o.U0 != fI())
         cls["oblique_cell"] += (not is_diag(o.L0))
+        cls["cell_alpha_beta_90_gamma_not_90"] += (o.mt0[0][2] == 0 and o.mt0[1][2] == 0 and o.mt0[0][1] != 0)
         cls["lab_exact_in_tlc"] += bool(r["labexact"])
         e = fsub(o.S, fI())
         rn = max(sum(abs(x) for x in row) for row in e)
@@ -645,33 +899,59 @@ def run(tier, replay=None):
     for k_, v in cls.items():
         if v == 0:
             raise common.MachineryError("vacuity: no emitted case in class %s" % k_)
+    for k_, v in rp.fam.items():
+        if v == 0:
+            raise common.MachineryError("vacuity: harness family %s was never exercised" % k_)
+    for Hc in hr.ghist:
+        chk.case(json.dumps(Hc.rec, sort_keys=True))
+        chk.traces += 1
+    for B in hr.mbind:
+        chk.case(json.dumps([B.rec, B.to_json()["shape"]], sort_keys=True))
+        chk.traces += 1
     chk.notes["case_classes"] = cls
-    chk.notes["comparisons"] = rp.ncmp
+    chk.notes["harness_families"] = dict(rp.fam)
+    chk.notes["comparisons"] = rp.ncmp + hr.gr.ncmp + hr.mr.ncmp
     chk.notes["masked_voxels_in_TensorMap"] = rp.nmasked
-    chk.evaluations = rp.ncmp
+    chk.evaluations = rp.ncmp + hr.gr.ncmp + hr.mr.ncmp
     for r in recs[:2]:
         chk.sample({"S": r["S"], "R": r["R"], "L0": r["L0"], "U0": r["U0"], "eref": r["eref"][:2]})
-    byroute = judge(chk, recs, rp, oracles)
-    chk.notes["failing_routes"] = dict((k_, len(v)) for k_, v in byroute.items())
+    for r in [x for x in hrecs if x["kind"] == "grain"][:1] + [cex]:
+        chk.sample({"history": [dict((k_, v) for k_, v in o.items() if k_ not in ("ans", "Q", "F", "val", "dz"))
+                                for o in r["hist"]]})
     chk.rule = ("every record TLC emits for REFS x STRETCHES x ROTS (%s) is replayed through every route and "
-                "every m in -1..2; non-trivial = stretch differs from the identity" %
-                ("Strain_q.cfg" if tier == "quick" else "Strain_t.cfg + Strain_q.cfg"))
-    chk.exhaustive = True
+                "every m in -1..2 (+ one small-strain member S' = I + e/100 or e/10^4 per record, thorough: per 4th record); every history "
+                "of machine HSpec kept after thinning the siblings of a simulated behaviour (%s) is replayed on one "
+                "real object, grain histories once more lifted to the records of machine Spec; non-trivial = "
+                "stretch differs from the identity / every history" %
+                ("Strain_q.cfg" if tier == "quick" else "Strain_t.cfg + Strain_q.cfg",
+                 "Strain_hist_q.cfg, seeded; Strain_map_asis counterexample" if tier == "quick" else
+                 "Strain_hist_t.cfg + Strain_hist_q.cfg, seeded; Strain_map_t.cfg exhaustive; Strain_map_asis counterexample"))
+    chk.exhaustive = False          # machine Spec is enumerated; the histories of machine HSpec are drawn (see rule)
     chk.assumptions = ["floating point accuracy away from the enumerated rational instances is not decided",
                        "m = 0 and the B matrix of the strained cell are finished in double precision from "
-                       "the exact rationals (validated by exp(E0) = S)"]
+                       "the exact rationals (validated by exp(E0) = S; Mercator series in exact fractions for "
+                       "the small-strain family)",
+                       "histories of machine HSpec are drawn by tlc -simulate (seeded), not enumerated, except "
+                       "the TensorMap histories of 4 operations in the thorough tier",
+                       "a derived TensorMap strain map (eps_crystal from eps_sample or the reverse) is judged "
+                       "against the rotation with the map's own Busing-Levy U, which equals the per-grain tensor "
+                       "exactly only for a diagonal stretch of an unrotated reference"]
     return chk.finish()
 
 
-def selftest(recs=None):
+def selftest(recs=None, hrecs=None):
     """the comparison must reject a perturbed expectation on each family of routes"""
     if recs is None:
         shadow = private_shadow()
         common.use_shadow(shadow)
         load_modules()
-        res, recs = run_spec(None, "Strain_q.cfg", workers=8, timeout=600)
+        res, recs = run_spec(None, "Strain_q.cfg", workers=8, timeout=900)
         if not res.finished or not recs:
             raise common.MachineryError("selftest: TLC run failed")
+    if hrecs is None:
+        hres, hrecs = run_hist_spec("Strain_hist_q.cfg", behaviours=64, depth=16, timeout=900, workers=8)
+        if not hres.finished or not hrecs:
+            raise common.MachineryError("selftest: TLC history run failed")
     # pick records with a full stretch and a Pythagorean rotation
     def suitable(r):
         Rn, Sn = r["R"][0], r["S"][0]
@@ -682,11 +962,12 @@ def selftest(recs=None):
     if not pick:
         raise common.MachineryError("selftest: no record with an asymmetric rotation and a full stretch")
     base = Replayer()
-    base.run(pick)
+    oracles = base.run(pick)
     clean = set(rt for rt, _, _ in base.failures)
     want = {"eref": "grain.eps_grain_matrix(grain)", "lab_transposed": "grain.eps_sample_matrix(cell)",
             "e6order": "grain.eps_sample(cell) e6", "F_transposed": "DeformationGradientTensor.F",
-            "map": "tensor_map.ubi_and_unitcell_to_eps_sample"}
+            "map": "tensor_map.ubi_and_unitcell_to_eps_sample",
+            "small": "small strain: grain.eps_sample_matrix(cell)"}
     for pert, route in want.items():
         rp = Replayer(perturb=pert)
         rp.run(pick)
@@ -702,4 +983,44 @@ def selftest(recs=None):
         pass
     else:
         raise common.MachineryError("selftest: corrupted E_ref accepted by the exact cross-check")
+    # histories: an answer judged against the state BEFORE set_ubi / the map of version 1 must be rejected,
+    # a corrupted answer of the specification must be caught by the exact cross-check
+    allrecs = [Oracle(r) for r in recs[:400]]
+    def goodg(r):
+        ops = [o["op"] for o in r["hist"]]
+        if r["kind"] != "grain" or "set_ubi" not in ops:
+            return False
+        first = (r["hist"][0]["S"], r["hist"][0]["R"])
+        cur, ok = first, False
+        for o in r["hist"]:
+            if o["op"] == "set_ubi":
+                cur = (o["S"], o["R"])
+            elif o["op"] == "ask" and cur[0] != first[0] and o["m2"] != 0:
+                ok = True
+        return ok
+    gh = [r for r in hrecs if goodg(r)][:5]
+    mh = [r for r in hrecs if r["kind"] == "map" and
+          any(o["op"] == "read" and o["cur"] > 1 and o["asis"] == o["exp"] for o in r["hist"])][:5]
+    if not gh or not mh:
+        raise common.MachineryError("selftest: no history with a question after a change of state")
+    for pert, recs_, attr in (("hist_state", gh, "gr"), ("map_version", mh, "mr")):
+        ref_ = HistoryRun(base.mods(), allrecs, 5)
+        ref_.run(recs_, 3)
+        hp = HistoryRun(base.mods(), allrecs, 5, perturb=pert)
+        hp.run(recs_, 3)
+        before = set((f[1], f[2]) for f in getattr(ref_, attr).failures)
+        after = set((f[1], f[2]) for f in getattr(hp, attr).failures)
+        if not after - before:        # an answer that was accepted must now be rejected
+            raise common.MachineryError("selftest: perturbation %s of a history was not rejected" % pert)
+    badh = copy.deepcopy(gh[0])
+    for o in badh["hist"]:
+        if o["op"] == "ask" and o["m2"] != 0 and int(o["ans"][1]) != 0:
+            o["ans"][0][0][0] += 1
+            break
+    try:
+        H.GrainHistory(badh)
+    except OracleMismatch:
+        pass
+    else:
+        raise common.MachineryError("selftest: corrupted history answer accepted by the exact cross-check")
     return True
